@@ -11,8 +11,39 @@ pub fn run(args: &crate::Args) {
         "", "bin", "exe", "cs", "csss", "j", "jp", "jpe", "wof", "woff3", "htmlx", "x", "tar.gz", "7z", "mp4", "pdf", "md", "rs", " css", "css ",
         "c\u{301}ss", "\u{e9}", "JS\u{131}",
     ];
+    // every suffix the source lists (string literals on `=>` lines of staticfiles.rs), so that the suite follows the tables
+    let mut known: Vec<String> = base.iter().take(18).map(|s| s.to_string()).collect();
+    let repo = std::env::var("VERIF_REPO").unwrap_or_else(|_| "/repo".into());
+    if let Ok(text) = std::fs::read_to_string(format!("{repo}/src/staticfiles.rs")) {
+        for line in text.lines().filter(|l| l.contains("=>")) {
+            for (i, part) in line.split('"').enumerate() {
+                if i % 2 == 1 && !part.is_empty() && part.len() <= 10 && part.bytes().all(|b| b.is_ascii_lowercase() || b.is_ascii_digit()) {
+                    known.push(part.to_string());
+                }
+            }
+        }
+    }
+    known.sort();
+    known.dedup();
+    // neighbours of every listed suffix: extensions, truncations, prefixed forms, doubled — all "unknown" unless listed themselves
+    let mut derived: Vec<String> = Vec::new();
+    for k in &known {
+        for tail in ["x", "2", "_", "-", ".", "~", "old", "-bak", "_orig", "path", "patch", "z", "0"] {
+            derived.push(format!("{k}{tail}"));
+        }
+        for head in ["x", ".", "_", "a"] {
+            derived.push(format!("{head}{k}"));
+        }
+        for cut in 1..k.len() {
+            derived.push(k[..cut].to_string());
+            derived.push(k[cut..].to_string());
+        }
+        derived.push(format!("{k}{k}"));
+        derived.push(format!("{k}.{k}"));
+    }
     let mut cases: Vec<String> = Vec::new();
-    for b in base {
+    for b in base.iter().map(|s| s.to_string()).chain(known.iter().cloned()).chain(derived.into_iter()) {
+        let b = &b;
         cases.push(b.to_string());
         cases.push(b.to_uppercase());
         // alternating case and first-letter upper case
